@@ -294,12 +294,17 @@ func sweepSpecs(w *World, sw *Sweep, specs *Specs) []*FuncSpec {
 		if incl != nil && !incl.MatchString(key) {
 			continue
 		}
+		var under []string
 		if sp, ok := specs.Funcs[key]; ok {
-			if hasProp(sp.Props, sw.Props[0]) || sp.Opaque || sp.Trusted {
+			if (hasProp(sp.Props, sw.Props[0]) && !sw.Immutable) || sp.Trusted {
 				continue // explicit contract wins
 			}
+			if sp.ImmutChk && sw.Immutable {
+				continue
+			}
+			under = sp.UnderConstruction
 		}
-		out = append(out, &FuncSpec{Key: key, Loops: map[int]*LoopSpec{}, Props: sw.Props, NoPanic: sw.NoPanic, InferAll: sw.Infer, File: sw.File, Implicit: true, NoNil: sw.NoNil, Lockset: sw.Lockset})
+		out = append(out, &FuncSpec{UnderConstruction: under, Key: key, Loops: map[int]*LoopSpec{}, Props: sw.Props, NoPanic: sw.NoPanic, InferAll: sw.Infer, File: sw.File, Implicit: true, NoNil: sw.NoNil, Lockset: sw.Lockset, ImmutChk: sw.Immutable})
 	}
 	sort.Slice(out, func(i, j int) bool { return out[i].Key < out[j].Key })
 	return out
